@@ -406,6 +406,10 @@ def gen_when_condition(rng, w, scope, numeric=True, must_mention=None, **kw):
         return None
     if len(cs) == 1 and rng.random() < 0.5:
         return cs[0]
+    if len(cs) >= 2 and rng.random() < 0.3:
+        return ["or"] + cs  # a disjunction at the top of the antecedent
+    if len(cs) >= 2 and rng.random() < 0.2:
+        return ["and", cs[0], ["or"] + cs[1:] + [cs[0]]]
     return ["and"] + cs
 
 
